@@ -25,13 +25,16 @@ answer
   {"history":[[sender,recipient|null,type,[cp…],remote]…],"buffer":[[sender,recipient,cp]…],
    "outbox":[[sender,recipient|null,type,[cp…]]…],"failed":null|"noParse"|…,"finished":b,
    "rejected":null|[…msg…],"extracting":b,
+   "variant":[findByRecipient,clearByRecipient,typesByRecipient,extendsGuard],   the generated rule the model ran with
    "stuck":null|k}       k = index of the first trace event the model does not enable (then the state is the
                          one before that event)
 
 The model runs with the variant GENERATED from the current source (`Generated.variant`).
 The internal events are derived: after "extract" (→ exStart) and after every "recv" while an extraction
 is active, `exStep` is taken as long as it is enabled, then `exFinish` if no type is left.
-A forecast asked for a history that is not in the table is a driver error (never defaulted).
+A forecast asked for a history that is not in the table is never defaulted: the replay stops there and the answer
+has "missing_forecast": true (the model's history has left the prefixes the verified forecaster enumerated — a
+disagreement with the run, reported by the harness as such).
 -/
 import Driver.Common
 import Model.IoRun
@@ -155,8 +158,9 @@ def jErrIo : Option Io.Err → Json
   | some .unexpectedParty => "unexpectedParty"
   | some .constraint => "constraint"
 
-def jState (s : State) (stuck : Option Nat) : Json :=
+def jState (s : State) (stuck : Option Nat) (missing : Bool := false) : Json :=
   Json.mkObj [
+    ("missing_forecast", Json.bool missing),
     ("history", Json.arr (s.history.map jMsgFull).toArray),
     ("buffer", Json.arr (s.buffer.map (fun f => Json.arr #[Json.str f.sender, Json.str f.recipient, Json.num (JsonNumber.fromNat f.data)])).toArray),
     ("outbox", Json.arr (s.outbox.map (fun o => Json.arr #[Json.str o.1, jOptStr o.2.1, Json.str o.2.2.1, jNats o.2.2.2])).toArray),
@@ -173,7 +177,7 @@ def jState (s : State) (stuck : Option Nat) : Json :=
 def replay (T : Tables) (S : Spec) : Nat → Bool → State → List TEv → Except String (State × Option Nat)
   | _, _, s, [] => return (s, none)
   | k, want, s, ev :: evs =>
-    if !known T s && live s then throw s!"no forecast given for the history of length {s.history.length}"
+    if !known T s && live s then return (s, some k)
     else match ev, want with
       | .extract, _ =>
         match applyT S s .extract with
@@ -210,7 +214,7 @@ def handle (j : Json) : Except String Json := do
   let T : Tables := ⟨fc, dn, fz, ty, fb⟩
   let S := specOf T
   let (s, stuck) ← replay T S 0 false init tr
-  if s.history.any (fun m => m.type == "?missing") then throw "a forecast was missing"
-  return jState s stuck
+  let missing := (!known T s && live s) || s.history.any (fun m => m.type == "?missing")
+  return jState s stuck missing
 
 def main : IO Unit := run handle
